@@ -51,14 +51,14 @@ static void fd_event(char kind, void *p, void *q) {
 }
 
 static void fd_record_site(void) {
-    void *bt[8];
+    void *bt[12];
     int was = fd_armed;
     fd_armed = 0;
-    int n = backtrace(bt, 8);
+    int n = backtrace(bt, 12);
     size_t o = 0;
     fd_site[0] = 0;
     /* bt[0] = fd_record_site, bt[1] = fd_fail, bt[2] = __wrap_*, bt[3..] = library frames */
-    for (int i = 3; i < n && i < 7; i++) {
+    for (int i = 3; i < n && i < 10; i++) {
         char b[128];
         b[0] = 0;
         __sanitizer_symbolize_pc((char *) bt[i] - 1, "%f", b, sizeof b);
